@@ -294,7 +294,7 @@ def remove_built():
     _built.clear()
 
 
-def run_harness(args, race=False, timeout=900, env=None, stdin_path=None, ok_codes=(0,)):
+def run_harness(args, race=False, timeout=900, env=None, stdin_path=None, ok_codes=(0,), crash_ok=False):
     """Run the harness; it prints exactly one JSON summary object on its last stdout line."""
     binp = build_harness(race)
     e = go_env()
@@ -305,6 +305,9 @@ def run_harness(args, race=False, timeout=900, env=None, stdin_path=None, ok_cod
                            stderr=subprocess.PIPE, text=True, timeout=timeout, errors="replace")
     except subprocess.TimeoutExpired:
         raise Inconclusive("harness timeout: %s" % " ".join(map(str, args)))
+    if crash_ok and p.returncode == 2 and "fatal error:" in p.stderr:
+        # the Go runtime killed the process (eg "concurrent map read and map write"): not a harness failure
+        return dict(_crashed=True, _stderr=p.stderr, _code=2, cases=0, compared=0, mismatches=[], mismatch_count=0, info={})
     if p.returncode not in ok_codes:
         raise Inconclusive("harness exit %d: %s\nstderr: %s\nstdout: %s" % (
             p.returncode, " ".join(map(str, args)), p.stderr[-3000:], p.stdout[-1000:]))
